@@ -175,7 +175,7 @@ isinit_d(false)
 SU_vector::SU_vector(const std::vector<double>& comp):
 dim(sqrt(comp.size())),
 size(comp.size()),
-components(new double[size]),
+components(nullptr), //allocated below, once the size is known to be valid
 ptr_offset(0),
 isinit(true),
 isinit_d(false)
@@ -186,13 +186,14 @@ isinit_d(false)
     throw std::runtime_error("SU_vector::SU_vector(unsigned int): Invalid size: dimension 1 is not supported");
   if(dim>SQUIDS_MAX_HILBERT_DIM)
     throw std::runtime_error("SU_vector::SU_vector(std::vector<double>): Invalid size: only up to SU(" SQUIDS_MAX_HILBERT_DIM_STR ") is supported");
+  components=new double[size];
   std::copy(comp.begin(),comp.end(),components);
 };
 
 SU_vector::SU_vector(const gsl_matrix_complex* m):
 dim(m->size1),
 size(dim*dim),
-components(new double[size]),
+components(nullptr), //allocated below, once the size is known to be valid
 ptr_offset(0),
 isinit(true),
 isinit_d(false)
@@ -204,6 +205,7 @@ isinit_d(false)
   if(dim>SQUIDS_MAX_HILBERT_DIM)
     throw std::runtime_error("SU_vector::SU_vector(gsl_matrix_complex*): Invalid size: only up to SU(" SQUIDS_MAX_HILBERT_DIM_STR ") is supported");
 
+  components=new double[size];
   std::fill(components,components+size,0.0);
 
   double m_real[dim][dim]; double m_imag[dim][dim];
